@@ -36,7 +36,8 @@ namespace BitSerializer
 
 namespace BitSerializer::Convert::Detail
 {
-	constexpr size_t UtcBufSize = 32;
+	// Enough for any 64-bit year: sign, 19 digits, "-MM-DDThh:mm:ss", '.', 9 digits of fractions and 'Z'
+	constexpr size_t UtcBufSize = 48;
 	constexpr int DaysInMonth[12] = { 31, 29, 31, 30, 31, 30, 31, 31, 30, 31, 30, 31 };
 
 	template <class TFractions = std::chrono::nanoseconds,
@@ -381,13 +382,14 @@ namespace BitSerializer::Convert::Detail
 			// The year has at least four digits, the sign is not counted (-0044-03-15T00:00:00Z)
 			const size_t outSize = snprintf(pos, endPos - pos, utc.Year < 0 ? "%05" PRId64 "-%02d-%02dT%02d:%02d:%02d" : "%04" PRId64 "-%02d-%02dT%02d:%02d:%02d",
 				utc.Year, utc.Month, utc.Day, utc.Hour, utc.Min, utc.Sec);
-			if (outSize > 0)
+			// `snprintf` returns the size which is required for the whole text (it can be greater than size of the buffer)
+			if (outSize > 0 && outSize < static_cast<size_t>(endPos - pos))
 			{
 				pos += outSize;
 				if (utc.SecFractions) {
 					pos = PrintSecondsFractions(pos, endPos, utc.SecFractions.value());
 				}
-				if (pos != endPos)
+				if (pos != nullptr && pos != endPos)
 				{
 					*pos++ = 'Z';
 					return pos;
